@@ -8,7 +8,7 @@ LEVEL = 'exploration'
 RULE = ('case = history of operations on a fresh class lattice per case (chain A<-B<-C, D(B, B2) with an unrelated second base, '
         'E(A) and the true diamond F(B, E), unrelated U; '
         'unique module names): register by class, register by qualified-name string, register predicate accepting a '
-        'subset of the classes (with a new printer, or the same printer function under a second predicate), print an instance, is_registered with each of the 6 legal flag combinations and the '
+        'subset of the classes (with a new printer, the same printer function under a second predicate, or the same predicate object with another printer), print an instance, is_registered with each of the 6 legal flag combinations and the '
         'illegal one. Exhaustive: all histories of length <= 3 over two reduced alphabets (classes A, B, D and A, E, F; 27 ops each); '
         'random: Hypothesis lists of up to 14 ops over the full lattice. Oracle: executable model - the printer used is '
         'the latest one registered (by class or by name, equivalent) for the nearest class in the MRO, else the '
@@ -79,6 +79,7 @@ def fixed_cases():
     yield {'ops': [['regn', 'A'], ['regc', 'B'], ['print', 'C'], ['regn', 'B'], ['print', 'D'], ['isreg', 'D', True, False, False]]}
     yield {'ops': [['regp', ['U', 'C']], ['regp', ['C']], ['print', 'C'], ['regn', 'B2'], ['print', 'D'], ['isreg', 'U', False, False, True]]}
     yield {'ops': [['regp', ['U']], ['regps', ['C']], ['print', 'C'], ['print', 'U'], ['regps', ['A']], ['print', 'A'], ['print', 'B']]}
+    yield {'ops': [['regp', ['U', 'C']], ['regpp'], ['print', 'U'], ['regpp'], ['print', 'C']]}
 
 
 def strategy(tier):
@@ -89,6 +90,7 @@ def strategy(tier):
         name.map(lambda n: ['regn', n]), name.map(lambda n: ['regn', n]),
         st.lists(name, max_size=3, unique=True).map(lambda ns: ['regp', sorted(ns)]),
         st.lists(name, min_size=1, max_size=2, unique=True).map(lambda ns: ['regps', sorted(ns)]),
+        st.just(['regpp']),
         name.map(lambda n: ['print', n]), name.map(lambda n: ['print', n]), name.map(lambda n: ['print', n]),
         st.tuples(name, st.sampled_from(FLAGS)).map(lambda p: ['isreg', p[0]] + list(p[1])),
         st.tuples(name, st.sampled_from(FLAGS)).map(lambda p: ['isreg', p[0]] + list(p[1])),
@@ -108,6 +110,7 @@ def oracle(case):
     direct = set()     # names registered directly by class at least once
     preds = []
     last_pred_printer = None
+    last_predicate = None
     tagc = itertools.count()
     log = []
     nontrivial_print = False
@@ -129,6 +132,14 @@ def oracle(case):
                 latest[op[1]] = tag
                 pending.add(op[1])
                 log.append((kind, op[1], tag))
+            elif kind == 'regpp':
+                # the SAME predicate object registered again with another printer: the first registration still wins
+                if last_predicate is None:
+                    continue
+                tag = 'T%d' % next(tagc)
+                register_pretty(predicate=last_predicate[1])(lambda v, ctx, tag=tag: tag)
+                preds.append((set(last_predicate[0]), tag))
+                log.append((kind, sorted(last_predicate[0]), tag))
             elif kind in ('regp', 'regps'):
                 accs = tuple(L[n] for n in op[1])
                 if kind == 'regps' and last_pred_printer is not None:
@@ -138,7 +149,9 @@ def oracle(case):
                     tag = 'T%d' % next(tagc)
                     fn = (lambda v, ctx, tag=tag: tag)
                     last_pred_printer = (tag, fn)
-                register_pretty(predicate=lambda v, accs=accs: type(v) in accs)(fn)
+                predicate = (lambda v, accs=accs: type(v) in accs)
+                last_predicate = (list(op[1]), predicate)
+                register_pretty(predicate=predicate)(fn)
                 preds.append((set(op[1]), tag))
                 log.append((kind, op[1], tag))
             elif kind == 'print':
